@@ -58,6 +58,22 @@ CHECKS = {
         "real engine over bindings, disequalities, domains, FD constraints (shared distinctfd object) and CLP(Z), multisets compared, plus the "
         "model/implementation diff of the combined run.",
         technique="Lean 4 theorems about an executable model (algebraic law) + differential combined-vs-separate runs of the implementation"),
+    "C16": dict(text="PARTIAL proof, stated as such. The Lean model mirrors clpfd/*.rs and the FD part of state/mod.rs function by function (repaired "
+        "re-run protocol). Proved for ALL states/operands/domains/orders/fuel: ground-exactness of plusfd/minusfd/timesfd/ltefd/diseqfd "
+        "(C16_ground_*: with ground operands the propagator succeeds, leaving the state unchanged, iff the arithmetic relation holds), "
+        "ltfd = diseqfd+ltefd (C16_ltfd), a bound operand is checked against the domain it is given (C16_domain_check, C16_domain_nonnum), a "
+        "domain shrinking to one value binds the variable to a member of it (C16_singleton_binds). OPEN (named in the evidence): the global "
+        "invariant through the re-entrant propagation loop; the end-to-end statement is decided by the correspondence (the model reproduces the "
+        "implementation's answer SEQUENCE on every generated program) and a brute-force oracle over the domain window.",
+        technique="Lean 4 local theorems about an executable model + differential correspondence + brute-force oracle (global invariant open)"),
+    "C17": dict(text="PARTIAL proof, stated as such. Proved for ALL domains/bounds: labelling offers exactly the members of a domain, each once, increasing "
+        "(C17_label_values, from C18); the map_sum mplus/delay chain delivers exactly its branches' answers (C17_map_sum); the narrowing "
+        "intervals of plusfd/minusfd/ltefd and — for EVERY sign combination — timesfd (four-corner products; quotient bounds only for "
+        "non-negative operands) never cut off a value that takes part in a solution within the current bounds (C17_plus_bounds, "
+        "C17_minus_bounds, C17_times_signs, C17_lte_bounds, C17_lte_narrow). OPEN: the global completeness argument through the propagation "
+        "loop and enforce_constraints_fd's onceo over hidden variables; decided end-to-end by the correspondence and the brute-force oracle "
+        "(every solution exactly once per disjunction path).",
+        technique="Lean 4 local theorems about an executable model + differential correspondence + brute-force oracle (global invariant open)"),
     "C18": dict(text="Full-strength theorems (21, for all well-formed domains in both representations, all integers, all predicates): "
         "intersect/diff/is_disjoint/contains/min/max/is_singleton/singleton_value/iteration/==/copy_before/drop_before/From<Vec> of the Lean "
         "model of fd.rs equal the set operations, None exactly on empty results, results well-formed again. The model is tied to fd.rs by "
